@@ -243,6 +243,10 @@ def mi_cases(draw, precision, tdtypes):
         labels[:first_len] = np.minimum(labels[:first_len], amax)
         labels[int(g.integers(first_len)), int(g.integers(W))] = amax
     ddt = draw(st.sampled_from([d for d in gen.CLASS_DTYPES if int(labels.max()) <= np.iinfo(d).max]))
+    if np.dtype(ddt).kind == 'i' and draw(st.integers(0, 2)) == 0 and (mode != 'auto' or (first_len < n and ekind != 'auto')):
+        # negative values of signed data are not classes (with automatic classes only after the first batch)
+        for _ in range(draw(st.integers(1, 3))):
+            labels[int(g.integers(first_len if mode == 'auto' else 0, n)), int(g.integers(W))] = -int(g.choice([1, 2, 3, 100]))
     data = labels.astype(ddt)
     independent = []
     # traces
